@@ -155,7 +155,7 @@ def _merge(out, r):
         out.violations.append(v)
     out.inconclusive.extend('%s: %s' % (r['job'], x) for x in r['inconclusive'])
     for s in r['samples']:
-        if len(out.samples) < 8:
+        if len(out.samples) < 40:
             s = dict(s)
             s['job'] = r['job']
             out.samples.append(s)
